@@ -84,7 +84,30 @@ impl Prop for C13 {
         let cfg = crate::props::c01::gen_cfg(tier);
         // permutation seed first so that it is stable under generator changes at the end
         let perm_seed = t.u16();
-        let case = gen_case(&mut t, &cfg, 6);
+        let mut case = gen_case(&mut t, &cfg, 6);
+        // sometimes one root is large: a chain over several hundred rewritable terms, so that a single
+        // call performs thousands of rule applications (budgets, depth limits, cache growth)
+        if t.chance(16) {
+            let n = 150 + t.below(1300);
+            let w = 1 + t.below(8);
+            let ctx = &mut case.ctx;
+            let zero = ctx.zero(w);
+            let mut acc = ctx.bv_symbol("big_acc", w);
+            let op = t.below(3);
+            for i in 0..n {
+                let x = ctx.bv_symbol(&format!("big{}", i), w);
+                let x0 = ctx.xor(x, zero);
+                let n1 = ctx.not(x0);
+                let term = ctx.not(n1);
+                acc = match op {
+                    0 => ctx.xor(acc, term),
+                    1 => ctx.add(acc, term),
+                    _ => ctx.or(term, acc),
+                };
+            }
+            case.roots.push(acc);
+            rec.label("large-root");
+        }
         let roots = case.roots.clone();
         let n = roots.len();
         let mut order: Vec<usize> = (0..n).collect();
